@@ -37,6 +37,9 @@ ASSUMPTIONS = [
     "(links followed); the destination may be absent or hold anything - the result is the pruned source laid over it "
     "(theorem transfer_onto_any_destination); the oracle demands the last source's files byte for byte and tolerates "
     "what earlier transfers left",
+    "recursion depth: upload/download recurse once per directory level; beyond the interpreter's recursion limit (about 480 "
+    "nested directories) the transfer ends with RecursionError and a partial destination - the theorems have no depth bound, "
+    "the code has; generated depth <= 4 (plus one 82-level link cycle)",
     "chunk size >= 1 (with 0 the first read is empty and nothing is copied; shown as an example in Props/C20.lean)",
     "names are sequences of code points (undecodable file-name bytes are lone surrogates, as os.fsdecode gives them); "
     "they cross the wire as brine str - this relies on the C04 repair (lone surrogates serialisable)",
@@ -422,7 +425,19 @@ class Rig:
         src_arg = spell(src, case.get("src_spelling"), src_is_dir, base)
         dst_arg = spell(dst, case.get("dst_spelling"), src_is_dir, base)
         try:
-            if case["direction"] == "upload":
+            if case.get("parent"):
+                # the destination lies below a regular file ("F") or below a directory that does not exist ("M")
+                par = os.path.join(base, "par")
+                if case["parent"] == "F":
+                    with open(par, "wb") as f_:
+                        f_.write(b"a regular file")
+                dst = os.path.join(par, "dst")
+                dst_arg = dst
+            if case["direction"] == "upload_dir":
+                classic.upload_dir(self.conn, src_arg, dst_arg)          # its own defaults: no filter, default chunk
+            elif case["direction"] == "download_dir":
+                classic.download_dir(self.conn, src_arg, dst_arg)
+            elif case["direction"] == "upload":
                 classic.upload(self.conn, src_arg, dst_arg, filter=filt, ignore_invalid=case["ignore_invalid"], **kw)
             elif case["direction"] == "download":
                 classic.download(self.conn, src_arg, dst_arg, filter=filt, ignore_invalid=case["ignore_invalid"], **kw)
@@ -507,6 +522,17 @@ def same_size_variant(tree, salt):
     return tree
 
 
+def resized_variant(tree, r):
+    """the same tree with files shrunk, grown or emptied (a later transfer must not leave the old tail behind)"""
+    if tree[0] == "F":
+        n = len(tree[1])
+        m = r.choice([0, n // 2, max(n - 1, 0), n + 1, n + 7])
+        return ("F", bytes((i * 5 + 3) & 0xFF for i in range(m)))
+    if tree[0] == "D":
+        return ("D", [(n, resized_variant(t, r)) for n, t in tree[1]])
+    return tree
+
+
 def boundary_histories():
     out = []
     for d in ("upload", "download"):
@@ -552,7 +578,8 @@ def gen_history(r):
     t = gen_tree(r, r.range(1, 3), c or 7, [0], force_dir=r.chance(3, 4))
     t = strip_others(t)
     steps = [dict(chunk=c, filter="N", tree=t, mtime="now"),
-             dict(chunk=c, filter=r.choice(["N", "N", F_TMP]), tree=same_size_variant(t, r.below(200)),
+             dict(chunk=c, filter=r.choice(["N", "N", F_TMP]),
+                  tree=same_size_variant(t, r.below(200)) if r.chance(1, 2) else resized_variant(t, r),
                   mtime=r.choice(["old", "same", "now"]))]
     if r.chance(1, 2):
         steps.append(dict(chunk=c, filter="N", tree=t, mtime=r.choice(["old", "same"])))
@@ -665,6 +692,12 @@ def chunk_of(case):
 
 
 def op_line(case, listed):
+    if case["direction"] in ("upload_dir", "download_dir"):
+        d = case["direction"][:-4]
+        return "files %s %d N T %s" % (d, default_chunk(case["direction"]), tree_text(listed))
+    if case.get("parent"):
+        return "files under %s %d %s %s %s %s" % (case["direction"], chunk_of(case), case["filter"],
+                                                  "T" if case["ignore_invalid"] else "F", case["parent"], tree_text(listed))
     if case["direction"] in ("upload_file", "download_file"):
         return "files copy %d %s" % (chunk_of(case), listed[1].hex())
     return "files %s %d %s %s %s" % (case["direction"], chunk_of(case), case["filter"],
@@ -749,6 +782,20 @@ def boundary_cases():
         # a filter object that is falsy
         out.append(dict(direction=d, chunk=7, filter="Z", ignore_invalid=False, tree=odd))
         out.append(dict(direction=d, chunk=1, filter="Z", ignore_invalid=True, tree=("D", [("a", ("F", b"1")), ("d", ("D", []))])))
+    # upload_dir / download_dir called directly, with their own defaults (no filter, the default chunk size)
+    dd_ = ("D", [("a.txt", ("F", b"abc")), ("empty", ("D", [])), ("b.tmp", ("F", b"\x00" * 15)), ("lnk", ("X", "dangling")),
+                 ("d1", ("D", [("c.txt", ("F", b"")), ("d.tmp", ("D", [("x", ("F", b"7"))]))]))])
+    for d in ("upload_dir", "download_dir"):
+        out.append(dict(direction=d, chunk=None, filter="N", ignore_invalid=True, tree=dd_))
+        out.append(dict(direction=d, chunk=None, filter="N", ignore_invalid=True, tree=("D", [])))
+        out.append(dict(direction=d, chunk=None, filter="N", ignore_invalid=True, dest_exists=True,
+                        tree=("D", [("big", ("F", big_content(64001))), ("d", ("D", [("x.tmp", ("F", b"x"))]))])))
+    # the destination below a regular file / below a directory that does not exist
+    for d in ("upload", "download"):
+        for par in ("F", "M"):
+            for t in (("F", b"file"), ("D", [("a", ("F", b"1")), ("e", ("D", []))]), ("X", "fifo")):
+                for ii in (False, True):
+                    out.append(dict(direction=d, chunk=7, filter="N", ignore_invalid=ii, tree=t, parent=par))
     # the same transfer with the source / destination path spelt differently: trailing separator, doubled separators,
     # './', relative, through a symlinked parent - files and trees with sub-directories, both directions
     deep = ("D", [("top.txt", ("F", b"top")), ("sub", ("D", [("in.txt", ("F", b"in")), ("deeper", ("D", [("leaf", ("F", b"leaf"))])),
@@ -891,6 +938,17 @@ def correspondence(ctx):
         c.evaluations += 1
         got = model_outcome(got_line)
         c.count("direction:" + case["direction"])
+        if case.get("src_spelling") or case.get("dst_spelling"):
+            c.count("path-spelling:src=%s,dst=%s" % (case.get("src_spelling") or "plain", case.get("dst_spelling") or "plain"))
+        if case.get("parent"):
+            c.count("destination-parent:" + case["parent"])
+        names = all_names(listed)
+        if any(ord(ch) > 127 or ch in "\n\t" or n != n.strip() for n in names for ch in n):
+            c.count("names:non-ascii-or-control-or-blank-padded")
+        if any(0xDC80 <= ord(ch) <= 0xDCFF for n in names for ch in n):
+            c.count("names:undecodable-bytes")
+        if has_link(case["tree"]):
+            c.count("source:symbolic-links")
         c.count("chunk:%s" % ("default" if case["chunk"] is None else case["chunk"]))
         c.count("filter:" + case["filter"])
         c.count("outcome:" + (want[0] if want[0] == "ok" and want[1] is not None else
@@ -919,6 +977,18 @@ def correspondence(ctx):
         c.count("source:" + k, v)
     c.exhaustive = False
     return c
+
+
+def all_names(tree):
+    if tree is None or tree[0] != "D":
+        return []
+    return [n for n, _t in tree[1]] + [x for _n, t in tree[1] for x in all_names(t)]
+
+
+def has_link(tree):
+    if tree[0] in "LC":
+        return True
+    return tree[0] == "D" and any(has_link(t) for _n, t in tree[1])
 
 
 def other_kinds(tree):
@@ -952,9 +1022,13 @@ def spec_prune(tree, filt):
 def oracle_case(rig, case):
     if case["filter"] == "Z":
         return None        # a falsy callable as filter: the code ignores it; reported, not judged here
+    if case.get("parent"):
+        return None        # a destination that cannot be created (OSError of the underlying call): outside the statement
     out, listed = rig.run_case(case)
     if case["direction"] in ("upload_file", "download_file"):
         want = ("ok", listed)
+    elif case["direction"] in ("upload_dir", "download_dir"):
+        want = ("ok", spec_prune(listed, None))
     else:
         p = spec_prune(listed, FILTERS[case["filter"]])
         if p is None:
